@@ -303,6 +303,10 @@ def table(ctx, facts, roles, truthy, cfg):
             return ("other-test", show_expr(v)[:80])
         if v[0] == "call" and v[1]:
             pth = v[1]["path"]
+            if re.search(r"^(core|std)::f64::<impl f64>::\w+$", pth):
+                # a classification of the double (is_normal, is_finite, is_sign_positive, abs …) in place of `== 0.0`:
+                # read, and another test than the table's (subnormals are not zero; -0.0 is)
+                return ("other-test", show_expr(v)[:80])
             if pth.endswith("::is_empty") and v[2]:
                 return ("pred", "empty", not neg)
             if re.search(r"PartialEq.*::(eq|ne)$", pth) and any(strip_refs(x)[0] == "const" and const_value(strip_refs(x)[1]) == "" for x in v[2]):
